@@ -1,0 +1,8 @@
+//go:build !verif
+// +build !verif
+
+package util
+
+// verifStep marks an atomic-step boundary for the verification harness; it is
+// an empty, inlined function in normal builds.
+func verifStep(string) {}
